@@ -1037,6 +1037,7 @@ func (tr *FnCtx) applyContract(st *State, f *ssa.Function, spec *FuncSpec, metho
 	k := tr.callCount[calleeName]
 	pre := st.clone()
 	env := &Env{tr: tr, vars: vars, st: pre, old: pre, pkg: pkg, allocOld: tr.cur(pre, compAlloc)}
+	tr.runAts(st, fmt.Sprintf("%s %s#%d", modeWord(mode), calleeName, k), vars)
 	// lock mode of the callee
 	if f != nil && mode != "go" {
 		lm := tr.lockModeOf(spec, f)
@@ -1047,7 +1048,6 @@ func (tr *FnCtx) applyContract(st *State, f *ssa.Function, spec *FuncSpec, metho
 	for _, cl := range spec.Requires {
 		tr.oblige(fmt.Sprintf("%s/call-pre[%s.%s]#%d", tr.Short, calleeName, cl.Label, k), "call-pre", tr.evalClause(env, cl), cl.Src)
 	}
-	tr.runAts(st, fmt.Sprintf("%s %s#%d", modeWord(mode), calleeName, k), vars)
 	if mode == "go" {
 		return &Val{T: resT}
 	}
